@@ -240,7 +240,7 @@ def _gen_world_once(rng, k):
         world['cycle'] = {'group': g, 'early': early['name'], 'late': late['name']}
         world['solvers'][g] = {'nl': rng.choice(K['nl']), 'ln': rng.choice(K['ln']),
                                'aitken': rng.random() < 0.2, 'use_apply': rng.random() < 0.3,
-                               'solve_subsystems': rng.random() < 0.3, 'rhs_checking': rng.random() < 0.3}
+                               'solve_subsystems': rng.random() < 0.3, 'rhs_checking': rng.random() < K.get('rhs_checking', 0.3)}
         # condition the loop: shrink the feedback gain until the non-negative majorant |M| has spectral
         # radius <= 0.4 (then every block Gauss-Seidel / Jacobi ordering of the cycle contracts)
         from .ref import Ref
@@ -259,9 +259,18 @@ def _gen_world_once(rng, k):
         for s_ in world['solvers'].values():
             if s_['ln'].startswith('direct_'):
                 s_['ln'] = 'direct'
+    if K.get('sub_ln', 0.0):
+        # hierarchical linear solves: subgroups without a cycle may carry their own linear solver too
+        for g in sorted(world['groups']):
+            if g and g not in world['solvers'] and rng.random() < K['sub_ln']:
+                ln = rng.choice(['direct', 'direct_csc', 'direct_dense', 'krylov', 'lnbgs'])
+                if any(c.get('mf') for c in comps) and ln.startswith('direct_'):
+                    ln = 'direct'
+                world['solvers'][g] = {'nl': 'runonce', 'ln': ln,
+                                       'rhs_checking': rng.random() < K.get('rhs_checking', 0.3)}
     if '' not in world['solvers']:
         world['solvers'][''] = {'nl': 'runonce', 'ln': rng.choice(K['root_ln']),
-                                'rhs_checking': rng.random() < 0.3}
+                                'rhs_checking': rng.random() < K.get('rhs_checking', 0.3)}
         if any(c.get('mf') for c in comps) and world['solvers']['']['ln'].startswith('direct_'):
             world['solvers']['']['ln'] = 'direct'
     # implicit components without their own solve need Newton at the owning group: we always give the
